@@ -58,6 +58,46 @@ fn call(a: &PidAllocator) -> Res {
     }
 }
 
+/// The allocation sequence as the property states it, written from the statement and not from the code: numbers 1..=MAX are
+/// handed out in turn with the current serial; when the number space is exhausted the serial advances and numbering starts
+/// again (the pid that carries the number MAX already has the advanced serial, the next one is number 1 with that serial).
+/// `n` allocations from the counter position (`id0`, `ser0`) hand out exactly this set, in whatever order the callers
+/// interleave: a pid outside it repeats one that an earlier allocation of the same history was given (seeded change S68:
+/// the serial read before the lock, so that a caller overtaken by a wrapping one returns (1, old serial)).
+pub fn sequential_window(id0: u32, ser0: u64, n: usize) -> Option<Vec<u64>> {
+    let (mut id, mut ser) = (id0 as u64, ser0);
+    let mut v = Vec::with_capacity(n);
+    for _ in 0..n {
+        if id >= MAXP as u64 {
+            ser = ser.checked_add(1)?;
+            v.push((id << 32) | (ser % (1u64 << 32)));
+            id = 1;
+        } else {
+            v.push((id << 32) | (ser % (1u64 << 32)));
+            id += 1;
+        }
+    }
+    v.sort_unstable();
+    Some(v)
+}
+
+/// X check: the pids of a concurrent run are the sequential window of its start position
+pub fn window_check(ctx: &mut Ctx, what: &str, id0: u32, ser0: u64, keys: &[u64]) {
+    if id0 == 0 || id0 > MAXP {
+        return; // not a position the allocator itself ever reaches
+    }
+    let Some(want) = sequential_window(id0, ser0, keys.len()) else { return };
+    let mut got = keys.to_vec();
+    got.sort_unstable();
+    if got != want {
+        let show = |k: &u64| format!("{}.{}", k >> 32, k & 0xffff_ffff);
+        let extra: Vec<String> = got.iter().filter(|k| want.binary_search(k).is_err()).take(4).map(show).collect();
+        let missing: Vec<String> = want.iter().filter(|k| got.binary_search(k).is_err()).take(4).map(show).collect();
+        ctx.fail("c16-not-the-sequential-window", &format!("{}: handed out {:?} which the {} allocations from this position never yield in sequence (a pid of an earlier epoch or position is repeated); not handed out: {:?}", what, extra, keys.len(), missing));
+    }
+    ctx.count("window_checks");
+}
+
 fn mk(id0: u32, ser0: u64, cre: u32) -> PidAllocator {
     let a = PidAllocator::new(Atom::new("c16@localhost"), cre);
     a.next_id_test_only().store(id0, Ordering::SeqCst);
@@ -359,6 +399,9 @@ fn thread_part(ctx: &mut Ctx) {
             .flatten()
             .filter_map(|r| if let Res::Ok(i, s, _) = r { Some(((*i as u64) << 32) | *s as u64) } else { None })
             .collect();
+        if !saw_panic && keys.len() == total {
+            window_check(ctx, &format!("threads id0={} ser0={} counts={:?}", id0, ser0, counts), id0, ser0, &keys);
+        }
         dup_check(ctx, &format!("threads id0={} ser0={} counts={:?}", id0, ser0, counts), &mut keys);
         // per-thread: the creation values a thread sees never go back in the order they were stored
         for v in &per {
